@@ -20,6 +20,8 @@ func Hostile() {
 	SchedIds = append(SchedIds, "s&<")
 	IdTemplates = append(IdTemplates, "x.{{.timestamp")
 	RouteTags = append(RouteTags, "null")
+	// ids whose derived callback ids collide: (root a, promise b:c) and (root a:b, promise c) both give __resume:a:b:c
+	ApiPromiseIds = append(ApiPromiseIds, "a", "c")
 }
 
 type ApiOpts struct {
